@@ -67,6 +67,7 @@ def run_case(case, ctx):
     sgz = os.path.join(d, "o.sgz")
     conv.segy_convert(S.path, sgz, rate, bs, header_detection=case["mode"])
     out = os.path.join(d, "back.sgy")
+    conv.leave_stale(out, repr(case["src"].get("values")) + case["mode"])
     if case["via"] == "api":
         # the SGZ is named (str, Path, bytes) or handed over as an open file, a file-like object without an OS
         # descriptor, or a blob client
